@@ -103,6 +103,7 @@ class ParserRun:
         self.retained_after: list[int] = []
         self.state_sigs: list = []
         self.consumed_cb = None
+        self.lazy_pauses = 0
 
     # ---- feeding -------------------------------------------------------------------------------
     def _feed(self, data: bytes):
@@ -158,6 +159,8 @@ class ParserRun:
                 pm.eof = True
                 continue
             while True:
+                if p.exception() is not None:
+                    break  # a consumer gets the exception, not what is still buffered
                 for x in p._http_chunk_splits or ():
                     if x > pm.last_split:
                         pm.splits.append(x)
@@ -182,8 +185,15 @@ class ParserRun:
         self.retained_after.append(r)
         if r > self.max_retained:
             self.max_retained = r
-        if self.consume:
+        if self.consume is True:
             self.drain()
+        elif self.consume == "lazy":
+            # a real transport delivers nothing while reading is paused: consume until resumed
+            n = 0
+            while self.proto._reading_paused and n < 10000:
+                self.lazy_pauses += 1
+                self.drain()
+                n += 1
 
     def feed_eof(self):
         if self.error is not None or self.upgraded:
@@ -221,7 +231,13 @@ class ParserRun:
                     break
         if eof:
             self.feed_eof()
+        self.drain()
         return self
+
+    def pending(self) -> bool:
+        """True when the parser still holds an unfinished message (head or body) - the stream is incomplete."""
+        p = self.parser
+        return bool(p._lines or p._tail or p._payload_parser is not None)
 
     # ---- canonical outcome -----------------------------------------------------------------------
     def outcome(self):
